@@ -34,8 +34,14 @@ Script_Small == << Cr("block", 0, "n1", 1), Cr("array", 1, "n1", 2), Cr("array",
                    Cr("tag", 1, "n1", 5), Cr("source", 1, "n1", 6) >>
 Limit_Small == L(1, 1, 2, 1, 0, 0, 1, 0, 0)
 
+\* names shadowed across levels of the source tree (n1 at the top, n1 below it, n1 below another root): by-name
+\* operations on link lists must find the LINKED entity of that name, not a same-named entity elsewhere in the tree
+Script_Shadow == << Cr("block", 0, "n1", 1), Cr("array", 1, "n1", 2), Cr("group", 1, "n1", 3), Cr("tag", 1, "n1", 4),
+                    Cr("source", 1, "n1", 5), Cr("source", 5, "n1", 6), Cr("source", 1, "n2", 7), Cr("source", 7, "n1", 8) >>
+Limit_Shadow == L(1, 1, 1, 1, 0, 0, 4, 0, 0)
+
 \* C20: a block with internal structure (group list, tag reference + feature, multi-tag with positions/extents,
-\* nested sources linked from an array), a nested section with a property, a second (empty) block as destination
+\* nested sources linked from an array, a data frame listed in the group), a nested section with a property, a second (empty) block as destination
 LA(o, l, x) == [name |-> "LinkAppend", o |-> o, l |-> l, x |-> x, out |-> "ok"]
 Script_Copy == <<
     Cr("block", 0, "n1", 1), Cr("array", 1, "n1", 2), Cr("array", 1, "n2", 3), Cr("group", 1, "n1", 4),
@@ -46,16 +52,17 @@ Script_Copy == <<
     LA(4, "data_arrays", 2), LA(5, "references", 3), LA(2, "sources", 8), LA(4, "tags", 5),
     Cr("section", 0, "n1", 10), Cr("section", 10, "n2", 11),
     [name |-> "CreateProperty", owner |-> 11, n |-> "n1", v |-> 1, new |-> 12, out |-> "ok"],
-    Cr("block", 0, "n2", 13) >>
-Limit_Copy == L(3, 2, 4, 2, 2, 2, 4, 4, 2)
+    Cr("block", 0, "n2", 13),
+    Cr("frame", 1, "n2", 14), LA(4, "data_frames", 14) >>
+Limit_Copy == LF(L(3, 2, 4, 2, 2, 2, 4, 4, 2), 2)
 \* ... with an id-keeping duplicate of array n2 inside the block (two entities, one id), then every single call -
 \* among them the fresh-id copy of the whole block, whose link lists must follow each member's own new id
-Limit_CopyDup == L(3, 2, 6, 2, 2, 2, 4, 4, 2)
+Limit_CopyDup == LF(L(3, 2, 6, 2, 2, 2, 4, 4, 2), 2)
 Script_CopyDup == Script_Copy \o <<
-    [name |-> "Copy", kind |-> "array", src |-> 3, dest |-> 1, n |-> "n3", keep |-> TRUE, new |-> 14, out |-> "ok"],
-    LA(4, "data_arrays", 14) >>
+    [name |-> "Copy", kind |-> "array", src |-> 3, dest |-> 1, n |-> "n3", keep |-> TRUE, deep |-> TRUE, new |-> 15, out |-> "ok"],
+    LA(4, "data_arrays", 15) >>
 \* ... followed by a copy of the whole block (fresh ids) and of the section tree: every single mutation of either side
 Script_Copied == Script_Copy \o <<
-    [name |-> "Copy", kind |-> "block", src |-> 1, dest |-> 0, n |-> "n3", keep |-> FALSE, new |-> 14, out |-> "ok"],
-    [name |-> "Copy", kind |-> "section", src |-> 10, dest |-> 0, n |-> "n2", keep |-> FALSE, new |-> 23, out |-> "ok"] >>
+    [name |-> "Copy", kind |-> "block", src |-> 1, dest |-> 0, n |-> "n3", keep |-> FALSE, deep |-> TRUE, new |-> 15, out |-> "ok"],
+    [name |-> "Copy", kind |-> "section", src |-> 10, dest |-> 0, n |-> "n2", keep |-> FALSE, deep |-> TRUE, new |-> 25, out |-> "ok"] >>
 =============================================================================
